@@ -14,6 +14,10 @@ Conforms(o) ==
   /\ IF o.kind = "impostor"
      THEN /\ o.impostor \in ImpostorModes                      \* the host refuses a plugin that serves with another certificate or none
           /\ o.out.first_use_ok = HostUses(Announced(o.impostor), Presented(o.impostor))
+     ELSE IF o.kind = "mangled"
+     THEN \* the host's certificate reached the plugin damaged: it may refuse to serve, but must not serve anybody
+          \* who cannot prove to be the launching host (and nobody here can)
+          \A k \in 1..Len(o.out.attempts) : ~o.out.attempts[k].served
      ELSE /\ Len(o.out.attempts) >= 1
           /\ \A k \in 1..Len(o.out.attempts) : AttemptOK(o, o.out.attempts[k])
           /\ o.out.legit_ok_before /\ o.out.legit_ok_after   \* the legitimate pair works, before and after the intrusions
